@@ -26,7 +26,7 @@ Proof. unfold windows. now rewrite nlen_map, nlen_iota. Qed.
 Lemma pick_atom_bounds lit s e :
   pick_atom_in_literal lit = (s, e) -> lit <> [] -> s + e < nlen lit.
 Proof.
-  unfold pick_atom_in_literal. intros H Hne.
+  unfold pick_atom_in_literal, pick_atom_with. intros H Hne.
   assert (0 < nlen lit) by (destruct lit; [congruence | rewrite nlen_cons; lia]).
   destruct (nlen lit <=? ATOM_SIZE) eqn:E.
   - inversion H; subst. lia.
